@@ -68,12 +68,34 @@ def main():
     rep.extra["inputs_behaviours_replayed"] = {"explored": len(behs), "replayed_cases": len(ibeh)}
     n = 900 if quick else 20000
     dt, ct = [c_ for c_ in ibeh if c_["kind"].startswith("dt")], [c_ for c_ in ibeh if c_["kind"].startswith("ct")]
-    for i in range(n):
+    # the rejection half, systematically: every construct a monitor kind does not support, with every interval of IVS, at the top
+    # of the formula and below a negation, a conjunction and a bounded future operator (seed C17-f: until[0,0] after pastify())
+    UNSUP = {"dt_on": ["ev", "alw", "until", "evT", "alwT", "untilT", "next", "snext"], "dt_past": ["ev", "alw", "until"],
+             "ct_off": ["prev", "sprev", "next", "snext", "rise", "fall"],
+             "ct_on": ["ev", "alw", "until", "evT", "alwT", "untilT", "next", "snext", "prev", "sprev", "rise", "fall"],
+             "ct_past": ["ev", "alw", "until", "untilT", "prev", "sprev", "next", "snext", "rise", "fall"]}
+    forced, forced_first = [], []
+    for kind_, ops_ in sorted(UNSUP.items()):
+        for o_ in ops_:
+            for (a_, b_) in (IVS if o_.endswith("T") else [(0, 0)]):
+                core_ = un(o_, ax, a_, b_) if o_ in TMO else bi(o_, ax, ay, a_, b_) if o_ == "untilT" else bi(o_, ax, ay) if o_ == "until" else un(o_, ax)
+                for ctx_ in (lambda q: q, lambda q: un("not", q), lambda q: bi("and", ay, q), lambda q: un("alwT", q, 0, 1)):
+                    f_ = ctx_(core_)
+                    if kind_ in ("dt_on", "ct_on") and f_["op"] == "alwT" and f_ is not core_:
+                        continue                      # (the context itself is unsupported there)
+                    (forced_first if (kind_, o_) == ("ct_past", "untilT") else forced).append((kind_, f_))
+    rng.shuffle(forced)
+    forced = forced_first + forced[:(160 if quick else len(forced))]
+    rep.extra["unsupported_constructs_cases"] = len(forced)
+    for i in range(n + len(forced)):
         S = rng.choice([1, 1, 2])
         kind = rng.choice(["dt_off", "dt_on", "dt_past", "ct_off", "ct_on", "ct_past"])
         g = Gen(rng, vars_=rng.choice([("x",), ("x", "y")]), S=S, ops=ALL_OPS, ivs=IVS, bool_atoms=kind.startswith("ct"))
         phi = g.formula(rng.choice([0, 1, 1, 2, 2, 3]))
-        if rng.random() < 0.5:
+        if i >= n:
+            kind, phi = forced[i - n]
+            S = 1
+        elif rng.random() < 0.5:
             # bias towards the supported fragment of the kind, so that half of the runs are complete executions
             sup = {"dt_off": ALL_OPS,
                    "dt_on": [o for o in ALL_OPS if o not in FUT], "dt_past": [o for o in ALL_OPS if o not in UNB_FUT],
